@@ -107,7 +107,7 @@ var specs = map[string]*propSpec{
 			{"CompilerInterface / ServerInterface of the library manager", "stub", "harness implementations: real parser+compiler, recording server"},
 			{"clock, timers", "stub", "testing/synctest fake clock"},
 		},
-		FaultKinds: []string{"torn-save", "duplicate-or-extra-event", "spurious-event", "reload-fails", "request-in-flight-across-reload", "slow-compile", "clock-jump"},
+		FaultKinds: []string{"torn-save", "duplicate-or-extra-event", "spurious-event", "reload-fails", "request-in-flight-across-reload", "slow-compile", "compile-stalls", "file-absent-when-debounce-fires", "clock-jump"},
 	},
 	"C16": {
 		ID: "C16", Title: "WebSocket rooms stay consistent under concurrency",
